@@ -116,6 +116,14 @@ class C11(Check):
                         'files': {'lib%d/tok.lark' % vi: lib}, 'cache_by_key': True}
                 spec['probes'] = self._probes(rng, p, e, lambda st: sg.text(rng, st))
                 cases.append(spec)
+        if rng.random() < 0.12:
+            # a grammar shipped inside a package, its imports found by a FromPackageLoader (Lark.open_from_package)
+            cfg = rng.choice(['pkg:a/ctx', 'pkg:b/ctx', 'pkg:a/basic', 'pkg:b/basic'])
+            e = W.ENTRIES[cfg.partition('/')[0]]
+            p = self._inst(cfg)
+            spec = persist.spec_of(cfg)
+            spec['probes'] = self._probes(rng, p, e, lambda st: rng.choice(e.texts))
+            cases.append(spec)
         hs = {k: rng.randrange(1, 1 << 31) for k in ('B', 'L1', 'L2', 'L3', 'D')}
         return {'cases': cases, 'hashseeds': hs, 'gens': rng.choice([1, 2, 2, 3]), 'standalone': rng.random() < 0.8,
                 'cli': rng.choice([False, False, 'plain', 'compress']), 'warm': rng.random() < 0.5, 'decoy': rng.random() < 0.5}
@@ -149,7 +157,7 @@ class C11(Check):
         def cli_ok(case):
             o = case['options']
             # only options the command line can express (anything else would make the generated module a parser for other options)
-            return plan.get('cli') and not case.get('user') and set(o) <= {'parser', 'lexer', 'start', 'keep_all_tokens', 'propagate_positions', 'maybe_placeholders', 'use_bytes', 'regex'}
+            return plan.get('cli') and not case.get('user') and not case.get('package') and set(o) <= {'parser', 'lexer', 'start', 'keep_all_tokens', 'propagate_positions', 'maybe_placeholders', 'use_bytes', 'regex'}
         cli = {c['name']: bool(cli_ok(c)) for c in plan['cases']}
         tB = run('B', [{'do': 'build', 'cfg': c, 'standalone': plan['standalone'], 'cli': cli[c], 'compress_cli': plan.get('cli') == 'compress', 'warm': plan.get('warm', False)} for c in cfgs])
         if tB is None:
